@@ -925,9 +925,49 @@ class Unit:
         return text
 
 
-def build_unit(repo, vxdir, template, out_path):
+def find_item_anywhere(repo, name):
+    """text of `const NAME` / `static NAME` found in any source file (outside test modules)"""
+    for root, _, files in os.walk(os.path.join(repo, 'src')):
+        for fn in sorted(files):
+            if not fn.endswith('.rs'):
+                continue
+            rel = os.path.relpath(os.path.join(root, fn), repo)
+            src = Source(repo, rel)
+            m = re.search(r'\b(const|static)\s+' + re.escape(name) + r'\b', src.masked)
+            if not m:
+                continue
+            pre = src.masked[:m.start()]
+            q = re.search(r'(pub(\s*\([^)]*\))?\s+)?$', pre)
+            i = m.end()
+            depth = 0
+            while True:
+                ch = src.masked[i]
+                if ch in '([{':
+                    depth += 1
+                elif ch in ')]}':
+                    depth -= 1
+                elif ch == ';' and depth == 0:
+                    break
+                i += 1
+            text = src.src[q.start():i + 1]
+            if not re.match(r'pub\b', text):
+                text = 'pub ' + text
+            return rel, text
+    return None
+
+
+def build_unit(repo, vxdir, template, out_path, extra_consts=()):
     u = Unit(repo, vxdir)
     text = u.expand(template)
+    if extra_consts:
+        add = []
+        for name in extra_consts:
+            found = find_item_anywhere(repo, name)
+            if not found:
+                raise ExtractError('identifier %s used by an extracted function is not a const/static of the crate' % name)
+            add.append('// auto-extracted because an extracted function refers to it (%s)\n%s' % found)
+            u.log.append({'rule': 'auto-const', 'name': name, 'file': found[0]})
+        text = re.sub(r'^verus! \{[ \t]*$', lambda m: m.group(0) + '\n' + '\n'.join(add), text, count=1, flags=re.M)
     with open(out_path, 'w') as f:
         f.write(text)
     # line map of functions
